@@ -459,6 +459,8 @@ class MemOrchestrator(BaseOrchestrator):
         lock = self._get_invocation_lock(invocation_id)
         with lock:
             prev_status_record = self.invocation_status_record.get(invocation_id)
+            if prev_status_record is None:
+                raise KeyError(f"Invocation ID {invocation_id} not found")
             new_record = status_record_transition(prev_status_record, status, runner_id)
             return self._interanl_atomic_status_transition(
                 invocation_id, prev_status_record, new_record
